@@ -17,7 +17,8 @@ def main():
     scratch = tempfile.mkdtemp(prefix="qverif.mut.", dir="/var/tmp")
     bad = 0
     try:
-        subprocess.run(["rsync", "-a", "--exclude", "target", "--exclude", ".git", "/repo/", scratch + "/"], check=True)
+        # the committed tree (not the working tree: seeded-change runs may have /repo temporarily patched)
+        subprocess.run("git -C /repo archive HEAD | tar -x -C %s" % scratch, shell=True, check=True)
         for m in muts:
             if args and m["prop"] not in args:
                 continue
